@@ -58,6 +58,8 @@ impl PanicInfo {
 
 thread_local! {
     static LAST_PANIC: RefCell<Option<PanicInfo>> = const { RefCell::new(None) };
+    /// depth of `catch` calls on this thread: a panic outside of them is a harness bug and is printed
+    static IN_CATCH: std::cell::Cell<u32> = const { std::cell::Cell::new(0) };
 }
 
 pub fn install_panic_hook() {
@@ -75,6 +77,9 @@ pub fn install_panic_hook() {
                 .location()
                 .map(|l| (l.file().to_string(), l.line()))
                 .unwrap_or_default();
+            if IN_CATCH.with(|c| c.get()) == 0 {
+                eprintln!("harness panic outside catch(): {} @ {}:{}", msg, file, line);
+            }
             LAST_PANIC.with(|p| *p.borrow_mut() = Some(PanicInfo { msg, file, line }));
         }));
     });
@@ -83,7 +88,10 @@ pub fn install_panic_hook() {
 /// Runs `f`, returning `Err(PanicInfo)` if it panicked.
 pub fn catch<T>(f: impl FnOnce() -> T) -> Result<T, PanicInfo> {
     LAST_PANIC.with(|p| *p.borrow_mut() = None);
-    match catch_unwind(AssertUnwindSafe(f)) {
+    IN_CATCH.with(|c| c.set(c.get() + 1));
+    let r = catch_unwind(AssertUnwindSafe(f));
+    IN_CATCH.with(|c| c.set(c.get().saturating_sub(1)));
+    match r {
         Ok(v) => Ok(v),
         Err(_) => Err(LAST_PANIC.with(|p| p.borrow_mut().take()).unwrap_or(PanicInfo {
             msg: "<unknown>".into(),
@@ -463,7 +471,7 @@ fn contend_impl<P: Prop>(group: &[serde_json::Value], threads: usize, iters: u64
 fn alias_variants(v: &serde_json::Value, salt: u64) -> Vec<serde_json::Value> {
     fn leaves(v: &serde_json::Value, path: &mut Vec<String>, out: &mut Vec<Vec<String>>) {
         match v {
-            serde_json::Value::Number(n) if n.as_i64().map(|x| x.abs() < (1 << 61)).unwrap_or(false) => out.push(path.clone()),
+            serde_json::Value::Number(n) if n.as_i64().map(|x| x.unsigned_abs() < (1u64 << 61)).unwrap_or(false) => out.push(path.clone()),
             serde_json::Value::Array(a) => {
                 for (i, x) in a.iter().enumerate().take(4) {
                     path.push(i.to_string());
@@ -779,7 +787,8 @@ impl Env {
                 cand.push(sib);
             }
             if let Ok(v) = serde_json::to_value(&base) {
-                for w in alias_variants(&v, x) {
+                // (a slip in this generic JSON surgery must not take the run down)
+                for w in catch(|| alias_variants(&v, x)).unwrap_or_default() {
                     if let Ok(c) = serde_json::from_value::<P::Case>(w) {
                         cand.push(c);
                     }
